@@ -67,6 +67,8 @@ def _texture(ctx, pydrex, case):
     n, axis = case["n"], case["axis"]
     row = AX.index(axis)
     _, A = gen.texture(rng, n, case["tex"])
+    if case["seed"] % 2:
+        A = ctx.buf("A", A)
     distinct = n > 1 and case["tex"] != "single"
     ctx.case(case, nontrivial=distinct)
     ctx.cls(f"tex={case['tex']}")
@@ -154,6 +156,8 @@ def _strain(ctx, pydrex, case):
         F = expm(L * rng.uniform(0.1, 3))
     if np.linalg.det(F) < 0:
         F[0] *= -1
+    if case["seed"] % 2:
+        F = ctx.buf("F", F)
     ctx.case(case, nontrivial=True)
     ctx.cls(f"F={k}")
     s, v = dg.finite_strain(F)
